@@ -7,6 +7,8 @@ import RSSched.Driver.Tour
 import RSSched.Driver.Pipe
 import RSSched.Driver.Trans
 import RSSched.Driver.Sched
+import RSSched.Driver.Swaps
+import RSSched.Driver.Mcf
 open RSSched RSSched.Driver
 
 def processCase (text : String) : Array String :=
@@ -18,6 +20,8 @@ def processCase (text : String) : Array String :=
     | "pipe" => checkPipe c
     | "trans" => checkTrans c
     | "sched" => checkSched c
+    | "swaps" => checkSwaps c
+    | "mcf" => checkMcf c
     | s => vnote s!"unknown scope {s}"
   let (_, v) := act.run {}
   let status := if v.fails > 0 then "fail" else if v.diffs > 0 then "diff" else "ok"
